@@ -242,7 +242,11 @@ func checkMain(args []string) int {
 			defer func() { <-sem }()
 			var cases []replayCase
 			for k, v := range r.res.Violations {
-				cases = append(cases, replayCase{ID: fmt.Sprintf("v%d", k), Entry: r.spec.Entry, Params: r.params, API: v.API})
+				rc := replayCase{ID: fmt.Sprintf("v%d", k), Entry: r.spec.Entry, Params: r.params, API: v.API}
+				if v.Unreached != "" {
+					rc.Repeat, rc.Want = 3000, v.Unreached
+				}
+				cases = append(cases, rc)
 			}
 			nSamples := 0
 			if !r.job.NoReplay {
@@ -278,6 +282,19 @@ func checkMain(args []string) int {
 					vo.detail = "no native result"
 				case cr.Desync != "":
 					vo.detail = "native replay desynchronised: " + cr.Desync
+				case v.Unreached != "":
+					hit := false
+					for _, l := range cr.Reached {
+						if l == v.Unreached {
+							hit = true
+						}
+					}
+					vo.confirmed = !hit
+					if hit {
+						vo.detail = "native sampling reached the witness the engine found unreachable"
+					} else {
+						vo.detail = "3000 native runs with the real random source never reached it either"
+					}
 				case v.Panic != "":
 					if cr.Panic != "" || strings.HasPrefix(v.Label, "deadlock") {
 						vo.confirmed = cr.Panic != ""
@@ -454,6 +471,8 @@ type replayCase struct {
 	Entry  string          `json:"entry"`
 	Params map[string]int  `json:"params"`
 	API    []symx.APIEvent `json:"api"`
+	Repeat int             `json:"repeat,omitempty"`
+	Want   string          `json:"want,omitempty"`
 }
 
 type nativeFailure struct {
@@ -575,9 +594,12 @@ func nativeReplay(root, repo, dir string, r *jobRun, cases []replayCase) (map[st
 func persistReplay(root, repo, prop string, r *jobRun, v symx.Violation) string {
 	dir := filepath.Join(root, "replays", prop, r.job.Name+"-"+hashOf([]any{r.params, v.Label, v.API}))
 	cases := []replayCase{{ID: "v0", Entry: r.spec.Entry, Params: r.params, API: v.API}}
+	if v.Unreached != "" {
+		cases[0].Repeat, cases[0].Want = 3000, v.Unreached
+	}
 	writeReplayDir(root, repo, dir, r, cases)
 	meta := map[string]any{"property": prop, "job": r.job.Name, "params": r.params, "assertion": v.Label, "panic": v.Panic, "kf": v.KF, "in_region": v.InRegion,
-		"pkg": r.spec.Pkg, "entry": r.spec.Entry, "stack": v.Stack,
+		"pkg": r.spec.Pkg, "entry": r.spec.Entry, "stack": v.Stack, "unreached": v.Unreached,
 		"how": "gosym replay " + dir + "   (runs: go test -overlay overlay.json -run TestGosymReplay ./" + r.spec.Pkg + "/ with GOSYM_REPLAY=replay.json)"}
 	b, _ := json.MarshalIndent(meta, "", " ")
 	os.WriteFile(filepath.Join(dir, "meta.json"), b, 0o644)
@@ -595,6 +617,7 @@ func replayMain(args []string) int {
 		Assertion string `json:"assertion"`
 		Panic     string `json:"panic"`
 		Property  string `json:"property"`
+		Unreached string `json:"unreached"`
 	}
 	if err := readJSON(filepath.Join(dir, "meta.json"), &meta); err != nil {
 		fmt.Println("INFRA:", err)
@@ -609,6 +632,18 @@ func replayMain(args []string) int {
 			json.Unmarshal([]byte(l[len("GOSYM-RESULT "):]), &nr)
 			for _, f := range nr.Failures {
 				if f.Label == meta.Assertion {
+					fmt.Printf("VIOLATION property=%s replay=%s\n", meta.Property, dir)
+					return 1
+				}
+			}
+			if meta.Unreached != "" {
+				hit := false
+				for _, l := range nr.Reached {
+					if l == meta.Unreached {
+						hit = true
+					}
+				}
+				if !hit && nr.Desync == "" {
 					fmt.Printf("VIOLATION property=%s replay=%s\n", meta.Property, dir)
 					return 1
 				}
